@@ -153,9 +153,9 @@ let h_stepping (req : json) : json =
               | "out" -> step_out fuel r
               | _ -> Some (execute_instruction r)) in
           (match x with
-           | Some (Running r') -> go r' rest (Obj [ ("state", Str "running"); ("cpu", jcpu r'.r_cpu) ] :: acc)
-           | Some (TestSuccess r') -> List.rev (Obj [ ("state", Str "passed"); ("cpu", jcpu r'.r_cpu) ] :: acc)
-           | Some (TestFailed f) -> List.rev (Obj [ ("state", Str "failed"); ("cpu", jcpu f.f_cpu) ] :: acc)
+           | Some (Running r') -> go r' rest (Obj [ ("state", Str "running"); ("cpu", jcpu r'.r_cpu); ("call_depth", jz r'.call_depth) ] :: acc)
+           | Some (TestSuccess r') -> List.rev (Obj [ ("state", Str "passed"); ("cpu", jcpu r'.r_cpu); ("call_depth", jz r'.call_depth) ] :: acc)
+           | Some (TestFailed f) -> List.rev (Obj [ ("state", Str "failed"); ("cpu", jcpu f.f_cpu); ("call_depth", jz r.call_depth) ] :: acc)
            | Some ExecPanic -> List.rev (Obj [ ("state", Str "panic") ] :: acc)
            | Some OutOfSubset -> List.rev (Obj [ ("state", Str "out_of_subset") ] :: acc)
            | None -> List.rev (Obj [ ("state", Str "out_of_fuel") ] :: acc)) in
